@@ -300,7 +300,10 @@ def run_c(ctx, datas, comps, asan):
         res = cybuild.call_cases(wd, [["chk", [i]] for i in idx], setup=WORKER_SETUP, alarm=60)
     for r in res:
         if r is not None and r.get("e") == "WORKER":
-            raise RuntimeError("C12 worker (harness) failure: %s" % r.get("m"))
+            if "too many crashes" in r.get("m", ""):
+                r["e"] = "CRASH"          # the cases before it each killed the process
+            else:
+                raise RuntimeError("C12 worker (harness) failure: %s" % r.get("m"))
     out = [None] * len(datas)
     for i, r in zip(idx, res):
         out[i] = r
